@@ -2,6 +2,7 @@
    call list (valid or not, any sizes and contents of the appended data), by a constant plus
    terms in the number of files started, the number of runs recorded and the lengths of the
    names — and the number of runs by the number of calls, never by the number of bytes. *)
+From MLA Require Import Limit.
 From MLA Require Import Base Stream Blocks Writer Mem MemSize.
 From Coq Require Import ZifyBool ZifyNat ZifyN.
 Open Scope N_scope.
@@ -79,6 +80,7 @@ Lemma wgrow_weaken s s' a b c c' : wgrow s s' a b c -> c <= c' -> wgrow s s' a b
 Proof. unfold wgrow. intros (A1 & A2 & A3 & A4 & A5) Hc. repeat split; lia. Qed.
 
 Section Calls.
+  Context {LIM : Limit}.
   Variable FNMAX : N.
   Variables T_START T_CONTENT T_EOA T_EOF : N.
   Variable H : bytes -> bytes.
@@ -139,8 +141,9 @@ Section Calls.
   Lemma w_finalize_grow s : wgrow s (fst (w_finalize_with T_START T_CONTENT T_EOA T_EOF order s)) 0 0 0.
   Proof.
     unfold w_finalize_with. destruct (w_final s); [apply wgrow_refl|].
-    destruct (w_open s) as [|x l] eqn:Eo; [|apply wgrow_refl].
-    cbn [fst]. unfold wgrow, nruns, nopen. cbn [w_files w_ids w_open]. rewrite Eo. repeat split; cbn; lia.
+    destruct (w_open s) as [|x l] eqn:Eo; [|apply wgrow_refl]. cbv zeta.
+    destruct (lim <? _); [|destruct (2 ^ 32 <=? _)];
+    cbn [fst]; unfold wgrow, nruns, nopen, w_finalized; cbn [w_files w_ids w_open]; rewrite Eo; repeat split; cbn; lia.
   Qed.
 
   Lemma wstep_grow s o :
@@ -259,10 +262,11 @@ Section Calls.
   Qed.
 
   Theorem wmem_depends_on_shape_only ops1 ops2 s1 s2 :
+    (forall f, Permutation.Permutation (order f) f) ->
     dims s1 = dims s2 -> Forall2 same_shape ops1 ops2 ->
     wmem (fst (wrun s1 ops1)) = wmem (fst (wrun s2 ops2)).
   Proof.
-    intros E HF. apply wmem_of_dims.
-    exact (proj1 (tables_depend_on_shape_only FNMAX T_START T_CONTENT T_EOA T_EOF H order ops1 ops2 s1 s2 E HF)).
+    intros Horder E HF. apply wmem_of_dims.
+    exact (proj1 (tables_depend_on_shape_only FNMAX T_START T_CONTENT T_EOA T_EOF H order Horder ops1 ops2 s1 s2 E HF)).
   Qed.
 End Calls.
